@@ -128,6 +128,10 @@ let got_oracle (prev : state) (next : state option) (m : message) : skey list =
         | Some s' -> if L.length (queue_of m s') > L.length (queue_of m s) then [k] else []
         | None -> []) (sessions prev))
 
+let contains (s : string) (sub : string) : bool =
+  let n = S.length s and m = S.length sub in
+  let rec go i = i + m <= n && (S.sub s i m = sub || go (i + 1)) in go 0
+
 (* ---------------------------------------------------------------- main loop *)
 let run path =
   let cases = ref 0 and diffs = ref 0 and propfails = ref 0 in
@@ -136,6 +140,7 @@ let run path =
   let hist = ref "0" and cap = ref (n_of_int 2) in
   let cur = ref (init (n_of_int 2)) in
   let pend_op : (string * string list) option ref = ref None in
+  let kt_seen = ref false in
   let pend_res = ref "" in
   let handle (k : string) (args : string list) (res : string) (snap : string list option) =
     incr cases;
@@ -153,6 +158,7 @@ let run path =
       | ["term"; c] -> OTerminate (conn c)
       | ["close"] -> OClose
       | _ -> failwith ("bad case " ^ S.concat " " args) in
+    (match op with OSetupEnd true -> kt_seen := true | _ -> ());
     let (r, st') = step prev op in
     let mres = s_of_result r in
     let label = !hist ^ "/" ^ k in
@@ -175,16 +181,27 @@ let run path =
            if not ok then begin
              incr propfails;
              Printf.printf "propfail %s %s op=%s impl=%s\n" label name (S.concat " " args) res end)
-         (Drv_backend_clauses.eval prev op ires nx)
+         (Drv_backend_clauses.eval ~kill_timeout:!kt_seen prev op ires nx)
      | _ -> ());
     (* continue from the implementation's state (the model's where no snapshot was possible) *)
     cur := (match next with Some nx -> nx | None -> st');
+    (* class of the step: operation, result, number of sessions, and for a Publish what it did to the sessions
+       (e enqueued, d dropped offline-full, s skipped closing-full, r own queue full, b blocked) and whether
+       a receiver was closing *)
+    let pubclass = match op with
+      | OPublish (c, m, _) ->
+        let letters = L.sort_uniq compare (L.map (fun (_, s) -> match classify prev c m s with
+            | ANone -> "" | ADrop -> "d" | ASkip -> "s" | AEnq -> "e" | AErr -> "r" | ABlock -> "b") (sessions prev)) in
+        let closing_rcv = L.exists (fun (_, s) -> match s.s_act, classify prev c m s with
+            | Some c', (AEnq | ASkip) -> c' <> c && L.mem c' prev.st_dying | _ -> false) (sessions prev) in
+        S.concat "" letters ^ (if closing_rcv then "+closing" else "") ^ (if m.m_retain then "+ret" else "")
+      | _ -> "" in
     let key = (match args with a :: _ -> a | [] -> "") ^ "/" ^ (match split ':' res with a :: _ -> a | [] -> "") ^ "/" ^
-              string_of_int (L.length (sessions prev)) in
+              string_of_int (L.length (sessions prev)) ^ "/" ^ pubclass in
     if not (Hashtbl.mem seen key) then (Hashtbl.replace seen key (); incr distinct)
   in
   L.iter (fun line -> match words line with
-      | ["hist"; h; c] -> hist := h; cap := n_of_s c; cur := init !cap
+      | ["hist"; h; c] -> hist := h; cap := n_of_s c; cur := init !cap; kt_seen := false
       | "case" :: k :: args -> pend_op := Some (k, args)
       | ["impl"; _; res] -> pend_res := res
       | "snap" :: _ :: toks ->
@@ -195,6 +212,7 @@ let run path =
          | None -> ())
       | "hang" :: rest -> incr diffs; Printf.printf "diff %s hang %s\n" !hist (S.concat " " rest)
       | _ -> ()) (read_lines path);
-  Printf.printf "done cases=%d diffs=%d propfails=%d distinct=%d\n" !cases !diffs !propfails !distinct
+  let closing = Hashtbl.fold (fun k () n -> if contains k "+closing" then n + 1 else n) seen 0 in
+  Printf.printf "done cases=%d diffs=%d propfails=%d distinct=%d closingclasses=%d\n" !cases !diffs !propfails !distinct closing
 
 let () = register "mb" run
